@@ -494,8 +494,16 @@ def run_case(case, tape, ctx):
                              f'a datagram the library failed to decode '
                              f'({err}) still invoked {len(got)} responder(s)')
                     return False
+            elif got and mut is not None and mut[0] == 'len':
+                viol.add('C18-3', 'malformed-length-dispatched',
+                         f'a bundle whose first element length field was '
+                         f'set to {mut[1]} ({err}) still invoked '
+                         f'{len(got)} responder(s)')
+                return False
             elif got:
                 bump('lenient-accept')
+                bump('lenient-accept-' + (mut[0] if mut else 'none')
+                     + (f'-{mut[1]}' if mut and mut[0] == 'len' else ''))
                 for g in got:           # keep the model in step
                     if g['rid'] != 'probe':
                         reg.fired(g['rid'])
@@ -504,6 +512,15 @@ def run_case(case, tape, ctx):
             bump('strict-accept-library-reject')
             return True
         msgs = osc.flatten(pkt)
+        if any(set(m.tags[1:]) - set('ifsb') for _, m in msgs):
+            # only i f s b are required by OSC 1.0; what a receiver does
+            # with optional type tags (a bit flip can produce them) is its
+            # own business: no verdict, keep the model in step
+            bump('optional-typetag-no-verdict')
+            for g in got:
+                if g['rid'] != 'probe':
+                    reg.fired(g['rid'])
+            return True
         # the library dispatches the messages of a packet ordered by time
         order = sorted(range(len(msgs)),
                        key=lambda i: msgs[i][0] or 0)
